@@ -11,7 +11,8 @@
     XML (root element not closed; checked on the real code by tools/props/c15.py). *)
 From E57 Require Import Base.Prelude Model.Device Model.PagedWriter Model.PagedReader Model.Prog
   Model.FileBin Model.ReaderOpen Model.CrashImage.
-From E57 Require Import Proofs.CrashLog Proofs.CrashOpen Proofs.CrashTrace Proofs.CrashMain.
+From E57 Require Import Spec.PageReadSpec.
+From E57 Require Import Proofs.CrashLog Proofs.CrashOpen Proofs.CrashTrace Proofs.CrashMain Proofs.CrashBridge.
 
 (** the completed file is the replay of the whole write sequence *)
 Theorem C15_replay : forall (A : Type) (p : wprog A), final_image p = apply_writes (trace_of p).
@@ -22,6 +23,14 @@ Print Assumptions C15_replay.
 Theorem C15_open_no_panic : forall img : list N, open_result img <> Panic.
 Proof. exact reader_open_no_panic. Qed.
 Print Assumptions C15_open_no_panic.
+
+(** [reader_open] accepts only a non-zero whole number of pages whose page 0 has a valid checksum
+    (the header fields it uses are read through the checksum layer) *)
+Theorem C15_open_ok_shape : forall img s h x, open_result img = Ok (s, h, x) ->
+  len img <> 0 /\ len img mod 1024 = 0 /\ page_ok 1024 (page_at 1024 img 0) = true /\
+  header_parse (take 48 img) = Ok h.
+Proof. exact open_ok_shape. Qed.
+Print Assumptions C15_open_ok_shape.
 
 (** every image from before the final write of page 0 (write number [length tr - 2], the header
     patch at the very end of finalize; this includes every image from before the finalize call):
